@@ -619,6 +619,36 @@ pub fn ingredient_sweep(common_syntax: bool) -> Vec<String> {
     out
 }
 
+/// Lazy and greedy bounded repeats with hi - lo >= 2 over bodies that match several lengths
+/// (an unrolling that gets the priority order of a lazy repeat wrong; seed S10-C01).
+pub fn bounded_repeats() -> Vec<String> {
+    let mut out = Vec::new();
+    for body in ["ab?", "a|ab|bc", "a?", "(a|ab)", "a|b|ab"].iter() {
+        for q in ["{0,2}?", "{1,3}?", "{2,4}?", "{0,2}", "{1,3}", "{0,3}?"].iter() {
+            for tail in ["(?=b|$)", "(?=c|$)", "(?!a)", "\\b"].iter() {
+                out.push(std::format!("(?:{}){}{}", body, q, tail));
+            }
+        }
+    }
+    out.push("(?U)(?:ab?){0,2}(?=b|$)".to_string());
+    out
+}
+
+/// Thirty-three and more capture groups around an atomic scope with a failing continuation
+/// (anything that keeps per-slot state in a machine word; seed S10-C05).
+pub fn many_groups() -> Vec<String> {
+    let g32: String = "()".repeat(32);
+    let g64: String = "()".repeat(64);
+    vec![
+        std::format!("(?>((?:|\\1){}(a)))b|a", g32),
+        std::format!("(?>(?:|a){}(a))b|a", g32),
+        std::format!("(?=(?:|a){}(a))b|a", g32),
+        std::format!("(?>(?:|a){}(a))b|a", g64),
+        std::format!("{}(?>(a)|(b))c|a", g32),
+        std::format!("{}(a)\\33(?=)", g32),
+    ]
+}
+
 /// Commits that merge many log entries although the text is short: counted repeats over
 /// groups that can match empty, inside an atomic scope whose continuation fails (seed
 /// S7-C20: a merge that is only wrong beyond 32 entries).
@@ -670,7 +700,10 @@ pub fn alt_order(common_syntax: bool) -> Vec<String> {
 // ---------------------------------------------------------------------------
 // fixed witnesses (known findings and regression shapes), always run
 
-pub const WITNESSES: [&str; 72] = [
+pub const WITNESSES: [&str; 86] = [
+    // round 10: titlecase / special-folding literals under (?i) beside a hard element; group
+    // tests and backreferences spelled as a number between name delimiters or relative
+    "(?i)\u{1c5}(?=)", "(?i)(?=)\u{1c5}", "(?i:\u{1c8})b(?=)", "(?i)((?=)\u{1c5})", "(?i)\u{1c5}", "(?i)a\u{1c5}(?!b)", "(?i)\u{17f}(?=)", "(?i)\u{212a}(?!b)", "(?:(a)|\\w)(?(<-1>)b|c)", "(?:a|(a))(?(<1>)b|c)", "(?:(a)|.)(?('1')b|c)", "(?:(a)|.)(?!\\k<-1>)", "(?:(a)b|ab)(?(<1>)c|d)", "(?:(a)|.)\\k<1>?(?(<-1>)b|c)",
     // round 8: an anchor inside a look-around at the very start (start-position shortcuts),
     // lazy and possessive exact counts
     "(?!\\A)a", "(?!^)a", "(?!^a).", "(?:(?!^)b|(?!^b)c)", "((?!\\Aa)[ab])\\1", "(?=\\A)a", "(?<!^)a(?=)", "(?!$)a?(?=)", "(?!\\z).(?=)", "(?<=\\A)a|(?!\\A)b", "(x)?(?:a){1}?", "(?:a){1}?b", "(a|b){1}?c", "a{1}?(?=)", "(?:a{1}?){2}", "(a){1}?\\1", "(?:ab){1}?(?!c)", "a{1}+b", "(?:a|ab){2}+c", "(?:a+){2}+a",
